@@ -677,7 +677,15 @@ func main() {
 		"(oracle only). Non-trivial = some retrieval returned a transaction; distinct by the operation sequence."
 	buildPool()
 	closeStore := openStore()
-	defer closeStore()
+	defer func() { closeStore() }()
+	// deleted records stay behind as Badger tombstones that every later iteration has to step over:
+	// start from a fresh store every 200 histories so that a long run stays linear
+	fresh := func(i int) {
+		if i%200 == 199 {
+			closeStore()
+			closeStore = openStore()
+		}
+	}
 	if c.Replay != "" {
 		var cs Case
 		c.ReplayCase(&cs)
@@ -693,10 +701,12 @@ func main() {
 	rs := c.Rng.Fork("seq")
 	for i := 0; i < nseq; i++ {
 		run(c, genSeq(rs))
+		fresh(i)
 	}
 	rc := c.Rng.Fork("conc")
 	for i := 0; i < nconc; i++ {
 		run(c, genConc(rc))
+		fresh(i)
 	}
 	c.Note(fmt.Sprintf("concurrent part: %d calls from 8 goroutines, %d returned a transaction-conflict error (no effect), %d transactions returned by racing retrievals",
 		concOps, concErrs, concReturns))
